@@ -177,8 +177,8 @@ CHECKS = {
                 'headers / body preserved, Host rewritten iff the option is on, response relayed unmodified, no match => 404 and no '
                 'connection, literal dynamic routes answered as is without connection. Route tables (static routes with 1..3 URLs '
                 'with/without port and path, http and https, IPv4/IPv6 literals, userinfo; dynamic URL and literal routes; overlapping '
-                'prefixes) x paths matching none/one/several x methods x bodies x both rewrite settings, one or two requests per '
-                'connection, run through the REAL handler + ReverseProxy; TLC decides each recorded connection.',
+                'prefixes; routes whose upstreams share the host and differ in the port only) x paths matching none/one/several x '
+                'methods x bodies x both rewrite settings, one to four requests per connection, run through the REAL handler + ReverseProxy; TLC decides each recorded connection.',
         'design_ref': 'DESIGN.md section 6, C12',
         'note': 'Trusted: TLC, SimNet. Route regexes are literal prefixes; for https upstreams only the connection attempt is observable.',
         'technique': 'TLA+ Expected relation over a reference URL / HTTP parser (TraceReverse) deciding recorded reverse-proxy connections',
@@ -204,11 +204,16 @@ CHECKS = {
                 'through the REAL HttpParser and through the REAL handler + HttpProxyPlugin on in-memory sockets, where the outbound '
                 'connection is observed at the socket-module seam (host string as handed to the OS layer, port, literal-or-name '
                 'dispatch). TLC (TraceTarget) decides: derived host/port/path = reference, connection to exactly that host (IPv6 without '
-                'brackets) and port, uninterpretable targets rejected and never connected.',
+                'brackets) and port, uninterpretable targets rejected and never connected. Sequence part (TraceTargetSeq): 2..4 '
+                'absolute-form requests on ONE kept-alive client connection (origins sharing the host and differing in the port, sharing '
+                'the port and differing in the host, one origin in two spellings, IPv6 literals), each answered by a faithful origin '
+                'before the next is sent; every request must arrive over exactly one upstream connection, the one to the host and port '
+                'its own target names.',
         'design_ref': 'DESIGN.md section 6, C14',
         'note': 'Trusted: TLC, SimNet. Unbracketed multi-colon hosts (patched up as IPv6 by the implementation, pinned by the repository '
                 'tests) and absolute URLs as CONNECT target are left unconstrained.',
-        'technique': 'TLA+ reference URL parser (Target.tla) + TLC validation (TraceTarget) of recorded parser results and socket-level connects',
+        'technique': 'TLA+ reference URL parser (Target.tla) + TLC validation (TraceTarget, TraceTargetSeq) of recorded parser results and '
+                     'socket-level connects / per-request destinations on kept-alive connections',
     },
     'C15': {
         'text': 'Reference codec in TLA+ (Http.tla) whose own laws are model-checked exhaustively (CodecLaws: Dechunk o Enchunk = id for '
